@@ -410,6 +410,8 @@ func ruleC01(c *Ctx) {
 	}
 	screenRule(c, "C01-R5")
 	sideDoors(c, "C01-R6")
+	c.rule("C01-R7", "signatures are checked against the store and clock configured NOW: the validation context is built per call in validationContext() from sp.IDPCertificateStore / sp.Clock (no caching), and every Validate receiver comes from it")
+	ctxWiring(c, "C01-R7")
 }
 
 func checkAppend(c *Ctx, t *Terminal, fname, label string, obj Val, ae *Event, hdr decode) {
@@ -522,7 +524,7 @@ func checkDirectChild(c *Ctx, rule string, t *Terminal, fname string, enter *Eve
 
 // screenRule: parseResponse.
 func screenRule(c *Ctx, rule string) {
-	res := c.kernel("parseResponse", "maybeDeflate")
+	res := c.kernel("parseResponse", "*")
 	if res == nil {
 		return
 	}
@@ -657,7 +659,7 @@ func sideDoors(c *Ctx, rule string) {
 	c.floor(rule+"/element-decode-sites", 6)
 
 	// RetrieveAssertionInfo sources
-	ri := c.kernel("(*SAMLServiceProvider).RetrieveAssertionInfo")
+	ri := c.kernel("(*SAMLServiceProvider).RetrieveAssertionInfo", retrieveInline...)
 	if ri != nil {
 		resp := "(*SAMLServiceProvider).ValidateEncodedResponse(SP, $encodedResponse)#0"
 		for _, t := range ri.Terms {
@@ -739,7 +741,7 @@ func ctxWiring(c *Ctx, rule string) {
 		c.bad(rule+"/who-may-construct", "controls/ownctx", "positive control", "-", "matcher did not flag the control that builds its own validation context")
 	}
 	// kernel: validationContext
-	res := c.kernel("(*SAMLServiceProvider).validationContext")
+	res := c.kernel("(*SAMLServiceProvider).validationContext", "*")
 	if res != nil {
 		for _, t := range res.Terms {
 			pos := c.P.InstrPos(t.Instr)
@@ -827,6 +829,9 @@ func ruleC04(c *Ctx) {
 		flagRule(c, "C04-R2", res, spec)
 	}
 	assertionFlags(c, "C04-R2")
+	c.rule("C04-R5", "what is marked validated is what was verified: appended assertions are freshly allocated objects decoded from their own verified element (shared with C01-R2); the verification context is the configured one (shared with C02-R1)")
+	appendProvenance(c, "C04-R5")
+	ctxWiring(c, "C04-R5/context")
 	// R3
 	for _, ff := range flagFields[:4] {
 		nt := c.P.Named(ff.Type)
@@ -848,7 +853,7 @@ func ruleC04(c *Ctx) {
 		}
 	}
 	// R4
-	ri := c.kernel("(*SAMLServiceProvider).RetrieveAssertionInfo")
+	ri := c.kernel("(*SAMLServiceProvider).RetrieveAssertionInfo", retrieveInline...)
 	if ri != nil {
 		k := 0
 		for _, t := range ri.Terms {
@@ -866,6 +871,49 @@ func ruleC04(c *Ctx) {
 		c.count("C04-R4", k)
 		c.floor("C04-R4", 1)
 	}
+}
+
+// appendProvenance: every append to the returned Response's Assertions passes C01-R2's analysis (fresh target,
+// decoded from its own verified element), reported under the given rule.
+func appendProvenance(c *Ctx, rule string) {
+	res := c.kernel(ssoSpec.Entry, inboundInline...)
+	if res == nil {
+		return
+	}
+	fname := shortFn(res.Root)
+	n := 0
+	for _, t := range res.Terms {
+		if !t.accepting(res.Root) {
+			continue
+		}
+		skip, known := skipFact(t)
+		if !known || skip {
+			continue
+		}
+		label := labelReturn(c, t)
+		obj := t.Vals[0]
+		var hdr decode
+		for _, d := range decodes(t) {
+			if d.Obj.Key() == obj.Key() {
+				hdr = d
+			}
+		}
+		for _, e := range t.St.events {
+			if e.Kind != EvStore {
+				continue
+			}
+			fa, ok := e.Addr.(*FieldAddrV)
+			if !ok || fa.X.Key() != obj.Key() || fa.Name != "Assertions" {
+				continue
+			}
+			if _, isApp := e.Val.(*AppendV); isApp {
+				n++
+				checkAppendFor(c, rule, t, fname, label, obj, e, hdr)
+			}
+		}
+	}
+	c.count(rule+"/appends", n)
+	c.floor(rule+"/appends", 1)
 }
 
 // assertionFlags: in ValidateEncodedResponse every appended assertion has SignatureValidated = true stored after its
@@ -960,9 +1008,9 @@ func ruleC10(c *Ctx) {
 	c.rule("C10-R2", "validation dominates acceptance; fatal verification errors; decode from the verified root or the raw root on the missing-signature continuation; flag <=> verified root, false under skip")
 	c.rule("C10-R3", "kind separation: root structs carry a tagged XMLName (namespace, local name), pairwise distinct except Response/UnverifiedBaseResponse; each validator decodes its own kind")
 	c.rule("C10-R4", "sibling agreement: the two logout validators have the same path skeleton (skip handling, error discipline, flag rule)")
-	lr := c.kernel("(*SAMLServiceProvider).ValidateDecodedLogoutResponse", "(*SAMLServiceProvider).validateLogoutResponseAttributes")
+	lr := c.kernel("(*SAMLServiceProvider).ValidateDecodedLogoutResponse", "*")
 	guardInventory(c, "C10-R1", lr, logoutRows("LR", "ServiceProviderSLOURL", true), nil)
-	lq := c.kernel("(*SAMLServiceProvider).ValidateDecodedLogoutRequest", "(*SAMLServiceProvider).validateLogoutRequestAttributes")
+	lq := c.kernel("(*SAMLServiceProvider).ValidateDecodedLogoutRequest", "*")
 	guardInventory(c, "C10-R1", lq, logoutRows("LQ", "ServiceProviderSLOURL", false), nil)
 	c.floor("C10-R1/accepting-paths", 4)
 	sk := map[string][]string{}
@@ -1000,6 +1048,8 @@ func ruleC10(c *Ctx) {
 			fmt.Sprintf("the two logout validators treat the same situations differently:\n   LogoutResponse: %v\n   LogoutRequest:  %v", a, b))
 	}
 	kindSeparation(c, "C10-R3")
+	c.rule("C10-R5", "logout signatures are checked with the configured store and clock (shared with C02-R1)")
+	ctxWiring(c, "C10-R5")
 }
 
 // skeleton: sorted multiset of terminal classes (kind of return, skip / verify outcome, flag).
